@@ -95,7 +95,8 @@ theorem fillNode_sat {S : SchemaView} (hS : ValidSchemaView S) :
     obtain ⟨more, hmore, hpost'⟩ := hr
     have hiff : r.2.2 = [] → more = [] := by intro h; simpa [hmore] using h
     refine ⟨⟨hpost'.step.weaken hiff, hpost'.cdInv, ?_, ?_, fun h => hpost'.outs (hiff h),
-      fun e he => by simpa [hasEnumNode] using hpost'.flag e he⟩, ?_⟩
+      fun e he => by simpa [hasEnumNode] using hpost'.flag e he,
+      fun h => (by simpa using hpost'.tops (hiff h))⟩, ?_⟩
     · intro v hv; exact hpost'.verts v (List.mem_append_left _ hv)
     · intro x hx
       apply hpost'.vids
@@ -151,18 +152,20 @@ theorem fillConnections_sat {S : SchemaView} (hS : ValidSchemaView S) :
       refine Sat.bind ((fillProperty_sat hinv hout hcd hcur (propType_typename S postType) conn
         sub.name sub.alias sub.filters sub.outputs sub.tags).monoK (fun _ h => h.elim))
         fun r hr => ?_
-      obtain ⟨hstep, hlen, hcdr, hvr, her, hfr, hnew⟩ := hr
+      obtain ⟨hstep, hlen, hcdr, hvr, her, hfr, hnew, htopn⟩ := hr
+      have hcurvid : ∀ f : FieldRefM, f.vid = cur → f.vid ∈ cdVids r.2.1 := by
+        intro f hf
+        obtain ⟨v0, hv0, hv0c, _⟩ := hcur
+        simp only [cdVids, hvr, List.mem_append]
+        left
+        rw [hf, ← hv0c]
+        exact List.mem_map_of_mem (f := (·.vid)) hv0
       have hpost1 : FillPost S (hasEnumConns ((conn, sub) :: rest)) st cd r.1 r.2.1 True := by
         refine ⟨hstep, hcdr, fun v hv => by rw [hvr]; exact hv, ?_, fun _ => ?_,
-          fun e he => Or.inl (by rw [her] at he; exact he)⟩
+          fun e he => Or.inl (by rw [her] at he; exact he), fun _ => ?_⟩
         · intro x hx; simpa [cdVids, hvr, hfr] using hx
-        · refine hnew.trans (OutNew.refl _ _) ?_ (fun _ h => h)
-          intro f hf
-          obtain ⟨v0, hv0, hv0c, _⟩ := hcur
-          simp only [cdVids, hvr, List.mem_append]
-          left
-          rw [hf, ← hv0c]
-          exact List.mem_map_of_mem (f := (·.vid)) hv0
+        · exact hnew.trans (OutNew.refl _ _) hcurvid (fun _ h => h)
+        · exact htopn.trans (TopNew.refl _ _) hcurvid (fun _ h => h)
       have hout' : 0 < r.1.outStack.length := by rw [hlen]; exact hout
       have hcur' : ∃ v0 ∈ r.2.1.vertices, v0.vid = cur ∧ v0.postType = postType := by
         rw [hvr]; exact hcur
@@ -246,15 +249,18 @@ theorem fillConnections_sat {S : SchemaView} (hS : ValidSchemaView S) :
                 intro h'; simp [hasRetrConns, FieldConnection.hasRetr, hf, h'])
                 (by intro h'; simp [hasEnumConns, h'])
             refine Sat.bind ((makeEdgeParameters_sat fd _ (hS.paramsDistinct t htmem fd hfdmem)).monoK
-              (fun _ h => Or.inl (Or.inl (Or.inr ⟨h.1, by simp [hasEnumConns, h.2]⟩))))
+              (fun _ h => Or.inl (Or.inr ⟨h.1, by simp [hasEnumConns, h.2]⟩)))
               fun paramErrs _ => ?_
             split
             · rename_i hne
-              refine ⟨St.Step.refl h1inv _, hcd_st1, fun _ h => h, fun _ h => h, fun h => ?_,
-                fun _ h => Or.inl h⟩
-              exfalso
-              have : paramErrs = [] := (List.append_eq_nil_iff.mp h).2
-              simp [this] at hne
+              have hfalse : ¬ ((if conn.optional = true then [FrontErr.UnsupportedDirectiveOnFoldedEdge] else []) ++
+                  (if conn.recurse.isSome = true then [FrontErr.UnsupportedDirectiveOnFoldedEdge] else []) ++
+                  paramErrs = []) := by
+                intro h
+                have : paramErrs = [] := (List.append_eq_nil_iff.mp h).2
+                simp [this] at hne
+              exact ⟨St.Step.refl h1inv _, hcd_st1, fun _ h => h, fun _ h => h,
+                fun h => absurd h hfalse, fun _ h => Or.inl h, fun h => absurd h hfalse⟩
             · obtain ⟨hfe_inv, hfe_path, hfe_out, hfe_vs, hfe_nv, hfe_ne, hfe_pf, hfe_go⟩ :=
                 foldEnter_inv h1inv st.nextVid
               have hfe_outlen : 0 < (foldEnter st1 st.nextVid).outStack.length := by
@@ -330,18 +336,20 @@ theorem fillConnections_sat {S : SchemaView} (hS : ValidSchemaView S) :
           rw [hfdname]; exact propType_field hfield htn
         refine Sat.bind ((fillProperty_sat hinv hout hcd hcur hty conn sub.name sub.alias sub.filters
           sub.outputs sub.tags).monoK (fun _ h => h.elim)) fun r hr => ?_
-        obtain ⟨hstep, hlen, hcdr, hvr, her, hfr, hnew⟩ := hr
+        obtain ⟨hstep, hlen, hcdr, hvr, her, hfr, hnew, htopn⟩ := hr
+        have hcurvid : ∀ f : FieldRefM, f.vid = cur → f.vid ∈ cdVids r.2.1 := by
+          intro f hf
+          obtain ⟨v0, hv0, hv0c, _⟩ := hcur
+          simp only [cdVids, hvr, List.mem_append]
+          left
+          rw [hf, ← hv0c]
+          exact List.mem_map_of_mem (f := (·.vid)) hv0
         have hpost1 : FillPost S (hasEnumConns ((conn, sub) :: rest)) st cd r.1 r.2.1 True := by
           refine ⟨hstep, hcdr, fun v hv => by rw [hvr]; exact hv, ?_, fun _ => ?_,
-            fun e he => Or.inl (by rw [her] at he; exact he)⟩
+            fun e he => Or.inl (by rw [her] at he; exact he), fun _ => ?_⟩
           · intro x hx; simpa [cdVids, hvr, hfr] using hx
-          · refine hnew.trans (OutNew.refl _ _) ?_ (fun _ h => h)
-            intro f hf
-            obtain ⟨v0, hv0, hv0c, _⟩ := hcur
-            simp only [cdVids, hvr, List.mem_append]
-            left
-            rw [hf, ← hv0c]
-            exact List.mem_map_of_mem (f := (·.vid)) hv0
+          · exact hnew.trans (OutNew.refl _ _) hcurvid (fun _ h => h)
+          · exact htopn.trans (TopNew.refl _ _) hcurvid (fun _ h => h)
         have hout' : 0 < r.1.outStack.length := by rw [hlen]; exact hout
         have hcur' : ∃ v0 ∈ r.2.1.vertices, v0.vid = cur ∧ v0.postType = postType := by
           rw [hvr]; exact hcur
